@@ -68,10 +68,12 @@ STMT_PRODS = {
     'E': [('STMTS',)],
     'STMTS': [('STMT', 'STMTS'), ()],
     'STMT': [('WORD', 'OPTNUM', ';'), ('IF', 'OPTW', 'OPTNUM', ';'), ('NUM', 'OPTW', ';'),
-             ('STRING', ';'), ('(', 'STMTS', ')'), ('DO', 'DECL', ';'),
+             ('STRING', 'MORE', ';'), ('(', 'STMTS', ')'), ('DO', 'DECL', ';'),
              # reached only by backtracking: "( ab )" first fails as a block, then LBL tries WORD NUM, gives the
              # WORD back and matches nothing - in front of the very token it had consumed
              ('(', 'LBL', 'WORD', ')')],
+    # further string literals behind the first one: a sequence template (its node is a leaf holding the elements)
+    'MORE': "sequence of STRING",
     'LBL': [('WORD', 'NUM'), ()],
     'OPTNUM': [('NUM',), ()],
     'OPTW': [('WORD',), ()],
@@ -118,7 +120,8 @@ def get_parser(cfg_id, smart=True):
         c = CONFIGS[cfg_id]
         # (the configuration containers are the caller's: after the construction he changes them, see make_llparser)
         _PARSERS[cfg_id, smart] = llmon.make_llparser(
-            c["tok"], productions={k: list(v) for k, v in c["prods"].items()}, synonyms=c["syn"],
+            c["tok"], productions={k: llparser.ProdSequence('STRING') if isinstance(v, str) else list(v)
+                                   for k, v in c["prods"].items()}, synonyms=c["syn"],
             span_matchers=c["span"], keywords=KEYW, skip_tokens=c["skip"], smart_factorization=smart)
     return _PARSERS[cfg_id, smart]
 
@@ -161,6 +164,8 @@ def gen_stmt(rng, depth=0):
             out.append(("WORD", rng.choice(WORDS)))
     elif r < 0.8 or depth >= 2:
         out = [("STRING", rng.choice(STRS))]
+        for _ in range(rng.choice([0, 0, 1, 2, 4])):
+            out.append(("STRING", rng.choice(STRS)))
     else:
         out = [("(", "(")]
         if rng.random() < 0.35:
@@ -337,6 +342,23 @@ def judge(ctx, cfg_id, pieces, form, case):
                           {"type": type(err).__name__, "msg": str(err)[:100], "bad_char_at": bad[0][1]}, case)
         else:
             ctx.violation("unmatched-character-not-reported", {"bad_char_at": bad[0][1]}, case)
+        if form != "lazy" and bad[0][1][0] >= 2:
+            # the same text behind a first line that is wrong for the grammar (a statement cannot start with a
+            # closing bracket): the character nothing matches is further down, and it is still what is reported
+            wrong = ") ) ; ) ) ; ) ;"
+            try:
+                parser.parse(wrong + "\n" + text if form == "str" else [wrong] + text.split("\n"), do_cleanup=False)
+                ctx.violation("unmatched-character-not-reported", {"bad_char_at": bad[0][1], "behind": wrong}, case)
+            except llparser.LexicalError as err:
+                ctx.count("lexical_errors_behind_a_syntax_error_checked")
+                if err.src_pos.line != bad[0][1][0] + 1:
+                    ctx.violation("lexical-error-names-wrong-line",
+                                  {"reported": err.src_pos.coords, "bad_char_at": bad[0][1], "behind": wrong}, case)
+            except llparser.ParsingError:
+                ctx.violation("unmatched-character-not-reported", {"bad_char_at": bad[0][1], "behind": wrong}, case)
+            except Exception as err:
+                ctx.violation("unmatched-character-raises-other-exception",
+                              {"type": type(err).__name__, "msg": str(err)[:100], "behind": wrong}, case)
         return
     # ---- token stream of the parser's tokenizer
     end_pos = None
@@ -397,8 +419,15 @@ def judge(ctx, cfg_id, pieces, form, case):
         return tuple(the_lines) if k == 2 else iter(the_lines) if k == 3 else (ln for ln in the_lines)
 
     def walk(node):
-        if node.value is None and node.name in cfg["prods"]:
+        if (node.value is None or node.value == []) and node.name in cfg["prods"]:
             order.append(("empty", node))
+        elif isinstance(node.value, list) and isinstance(cfg["prods"].get(node.name), str):
+            # the node of a sequence template: a leaf holding its elements.  It stands for "element, rest of the
+            # sequence" with an empty rest at the end, so like every node whose last part matched nothing it ends
+            # where the following token starts (judged below, when the following token is known)
+            for c in node.value:
+                walk(c)
+            order.append(("seq", node))
         elif isinstance(node.value, list) and node.name in cfg["prods"]:
             for c in node.value:
                 walk(c)
@@ -439,6 +468,16 @@ def judge(ctx, cfg_id, pieces, form, case):
         if name == "COMMENT" and e[0] > s[0]:
             nontrivial = True
     for idx, (kind, node) in enumerate(order):
+        if kind == "seq":
+            ctx.count("sequence_nodes_checked")
+            follower = next((n for k, n in order[idx + 1:] if k == "leaf"), None)
+            want_end = follower.start_pos.coords if follower is not None else end_pos
+            if node.start_pos.coords != node.value[0].start_pos.coords or (
+                    want_end is not None and node.end_pos.coords != want_end) or (
+                    node.end_pos.coords < node.value[-1].end_pos.coords):
+                ctx.violation("sequence-node-span-not-first-element-to-following-token",
+                              {"span": node.span, "first_element": node.value[0].span, "expected_end": want_end}, case)
+            continue
         if kind != "empty":
             continue
         ctx.count("empty_nodes_checked")
